@@ -273,6 +273,8 @@ def body_spelling(ctx: H.BaseCtx):
         for k in (0, 1, 2):
             groups.append(("add %d" % k, M.amap(lambda e, k=k: e + k, ma), [("numpoly.add", lambda k=k: numpoly.add(a, k)), ("numpy.add", lambda k=k: numpy.add(a, k)), ("operator +", lambda k=k: a + k), ("reflected +", lambda k=k: k + a)]))
             groups.append(("subtract %d" % k, M.amap(lambda e, k=k: e - k, ma), [("numpoly.subtract", lambda k=k: numpoly.subtract(a, k)), ("numpy.subtract", lambda k=k: numpy.subtract(a, k)), ("operator -", lambda k=k: a - k)]))
+            groups.append(("%d subtract" % k, M.amap(lambda e, k=k: k - e, ma), [("numpoly.subtract", lambda k=k: numpoly.subtract(k, a)), ("numpy.subtract", lambda k=k: numpy.subtract(k, a)), ("reflected -", lambda k=k: k - a)]))
+            groups.append(("%d add" % k, M.amap(lambda e, k=k: e + k, ma), [("numpy.add reflected", lambda k=k: numpy.add(k, a)), ("numpy.multiply reflected by 1", lambda k=k: numpy.multiply(1, a) + k)]))
             groups.append(("multiply %d" % k, M.amap(lambda e, k=k: e * k, ma), [("numpoly.multiply", lambda k=k: numpoly.multiply(a, k)), ("numpy.multiply", lambda k=k: numpy.multiply(a, k)), ("operator *", lambda k=k: a * k), ("reflected *", lambda k=k: k * a)]))
             groups.append(("power %d" % k, M.amap(lambda e, k=k: e ** k, ma), [("numpoly.power", lambda k=k: numpoly.power(a, k)), ("numpy.power", lambda k=k: numpy.power(a, k)), ("operator **", lambda k=k: a ** k)]))
         for label, exp, spellings in groups:
